@@ -6,7 +6,7 @@ set_option linter.unusedSectionVars false
 set_option linter.unusedVariables false
 namespace Frappy.Lemmas.C01
 open FloatOps DType Frappy.Datatypes Frappy.Spec.C01
-open PVal (toFloat? seqItems? prevItems prevFields dictGet dictSet)
+open PVal (toFloat? seqItems? prevItems prevFields dictGet dictSet isNone given notOffered)
 
 variable {F : Type} [FloatOps F] [LawfulFloatOps F]
 
@@ -81,8 +81,8 @@ theorem prevFields_canon {prev : Option (PVal F)} (hp : PrevCanon prev) : ∀ kv
 
 mutual
 theorem conv_canon : ∀ (dt : DType F) (v : PVal F) (prev : Option (PVal F)) (r : PVal F),
-    dt.WF → PrevCanon prev → conv .validate dt v prev = .ok r → Canon r
-  | .double min max ar rr, v, prev, r, hwf, _, h => by
+    dt.WF → conv .validate dt v prev = .ok r → Canon r
+  | .double min max ar rr, v, prev, r, hwf, h => by
     simp only [conv] at h
     obtain ⟨x, hx, hr⟩ := map_ok h
     simp only [DType.WF] at hwf
@@ -97,7 +97,7 @@ theorem conv_canon : ∀ (dt : DType F) (v : PVal F) (prev : Option (PVal F)) (r
         rw [hr, ← hx]
         exact canon_of_eq (median3_canon cmin (doubleCall_canon hy) cmax)
       · cases hx
-  | .scaled scale min max ar rr, v, prev, r, hwf, _, h => by
+  | .scaled scale min max ar rr, v, prev, r, hwf, h => by
     simp only [conv] at h
     obtain ⟨x, hx, hr⟩ := map_ok h
     simp only [DType.WF] at hwf
@@ -107,27 +107,27 @@ theorem conv_canon : ∀ (dt : DType F) (v : PVal F) (prev : Option (PVal F)) (r
     rcases hcase with ⟨_, _, e⟩ | ⟨_, _, _, e⟩
     · rw [e]; exact canon_of_eq (scaledCall_canon hp hres)
     · rw [e]; exact canon_of_eq (median3_canon (scaledCall_canon hp hlo) (scaledCall_canon hp hres) (scaledCall_canon hp hhi))
-  | .int min max, v, prev, r, hwf, _, h => by
+  | .int min max, v, prev, r, hwf, h => by
     simp only [conv] at h
     obtain ⟨x, hx, hr⟩ := map_ok h
     rw [hr]; simp only [Canon]
-  | .bool, v, prev, r, hwf, _, h => by
+  | .bool, v, prev, r, hwf, h => by
     simp only [conv] at h
     obtain ⟨x, hx, hr⟩ := map_ok h
     rw [hr]; simp only [Canon]
-  | .enum ms, v, prev, r, hwf, _, h => by
+  | .enum ms, v, prev, r, hwf, h => by
     simp only [conv] at h
     obtain ⟨n, k, hr, _, _⟩ := enumCall_ok h
     rw [hr]; simp only [Canon]
-  | .string minc maxc utf8, v, prev, r, hwf, _, h => by
+  | .string minc maxc utf8, v, prev, r, hwf, h => by
     simp only [conv] at h
     obtain ⟨x, hx, hr⟩ := map_ok h
     rw [hr]; simp only [Canon]
-  | .blob minb maxb, v, prev, r, hwf, _, h => by
+  | .blob minb maxb, v, prev, r, hwf, h => by
     simp only [conv] at h
     obtain ⟨x, hx, hr⟩ := map_ok h
     rw [hr]; simp only [Canon]
-  | .array elem lo hi, v, prev, r, hwf, hp, h => by
+  | .array elem lo hi, v, prev, r, hwf, h => by
     simp only [conv] at h
     simp only [DType.WF] at hwf
     split at h
@@ -139,11 +139,11 @@ theorem conv_canon : ∀ (dt : DType F) (v : PVal F) (prev : Option (PVal F)) (r
         · cases h
         · obtain ⟨rs, hrs, hr⟩ := map_ok h
           have hrs := mapErr_ok hrs
-          obtain ⟨h1, _⟩ := mapPrev_ok (P := Canon) (Q := Canon)
-            (fun v p r hq h => conv_canon elem v p r hwf.1 hq h) vs _ rs (prevItems_canon hp) hrs
+          obtain ⟨h1, _⟩ := mapPrev_ok (P := Canon) (Q := fun _ => True)
+            (fun v p r _ h => conv_canon elem v p r hwf.1 h) vs _ rs (fun _ _ => trivial) hrs
           rw [hr]; simp only [Canon]
           exact canonList_of_forall rs h1
-  | .tuple elems, v, prev, r, hwf, hp, h => by
+  | .tuple elems, v, prev, r, hwf, h => by
     simp only [DType.WF] at hwf
     cases prev with
     | some p =>
@@ -158,12 +158,8 @@ theorem conv_canon : ∀ (dt : DType F) (v : PVal F) (prev : Option (PVal F)) (r
           · rename_i ps hps
             obtain ⟨rs, hrs, hr⟩ := map_ok h
             have hrs := mapErr_ok hrs
-            have hq := hp p rfl
-            have hcl : CanonList ps := by
-              cases p <;> simp only [seqItems?] at hps <;> try (cases hps)
-              all_goals simpa only [Canon] using hq
             rw [hr]; simp only [Canon]
-            exact convTuple_canon elems vs (some ps) rs hwf.2 (fun l hl => by injection hl with hl; rw [← hl]; exact hcl) hrs
+            exact convTuple_canon elems vs (some ps) rs hwf.2 hrs
     | none =>
       simp only [conv] at h
       split at h
@@ -174,8 +170,8 @@ theorem conv_canon : ∀ (dt : DType F) (v : PVal F) (prev : Option (PVal F)) (r
         · obtain ⟨rs, hrs, hr⟩ := map_ok h
           have hrs := mapErr_ok hrs
           rw [hr]; simp only [Canon]
-          exact convTuple_canon elems vs none rs hwf.2 (fun l hl => by cases hl) hrs
-  | .struct ms opt cl, v, prev, r, hwf, hp, h => by
+          exact convTuple_canon elems vs none rs hwf.2 hrs
+  | .struct ms opt cl, v, prev, r, hwf, h => by
     simp only [conv] at h
     simp only [DType.WF] at hwf
     split at h
@@ -183,47 +179,33 @@ theorem conv_canon : ∀ (dt : DType F) (v : PVal F) (prev : Option (PVal F)) (r
       split at h
       · obtain ⟨acc, hacc, hr⟩ := map_ok h
         have hacc := mapErr_ok hacc
-        obtain ⟨a, _, _⟩ := foldFields_ok (M := fun k x => Canon x)
-          (fun k v r hkv => convMember_canon ms k v r hwf.2.2.2 hkv) items _ acc hacc
+        obtain ⟨acc0, h0, h1⟩ := structFold_ok hacc
+        have hf : ∀ k v r, convMember .validate ms k v = some (.ok r) → Canon r :=
+          fun k v r hkv => convMember_canon ms k v r hwf.2.2.2 hkv
+        obtain ⟨a0, _, _⟩ := foldFields_ok (M := fun k x => Canon x) hf _ _ acc0 h0
+        obtain ⟨a, _, _⟩ := foldFields_ok (M := fun k x => Canon x) hf items _ acc h1
         rw [hr]; simp only [Canon]
-        exact canonFields_of_forall acc (a (prevFields_canon hp))
+        exact canonFields_of_forall acc (a (a0 (by intro kv hkv; cases hkv)))
       · cases h
     · cases h
 theorem convTuple_canon : ∀ (ts : List (DType F)) (vs : List (PVal F)) (ps : Option (List (PVal F)))
-    (rs : List (PVal F)), WFList ts → (∀ l, ps = some l → CanonList l) →
-    convTuple .validate ts vs ps = .ok rs → CanonList rs
-  | [], vs, ps, rs, _, _, h => by
+    (rs : List (PVal F)), WFList ts → convTuple .validate ts vs ps = .ok rs → CanonList rs
+  | [], vs, ps, rs, _, h => by
     simp only [convTuple] at h
     injection h with h
     subst h
     simp only [CanonList]
-  | t :: ts, [], ps, rs, _, _, h => by
+  | t :: ts, [], ps, rs, _, h => by
     simp only [convTuple] at h
     injection h with h
     subst h
     simp only [CanonList]
-  | t :: ts, v :: vs, some [], rs, _, _, h => by
+  | t :: ts, v :: vs, some [], rs, _, h => by
     simp only [convTuple] at h
     injection h with h
     subst h
     simp only [CanonList]
-  | t :: ts, v :: vs, some (p :: ps), rs, hwf, hps, h => by
-    simp only [convTuple] at h
-    simp only [WFList] at hwf
-    have hz := hps _ rfl
-    simp only [CanonList] at hz
-    split at h
-    · cases h
-    · rename_i r hr
-      split at h
-      · cases h
-      · rename_i rs' hrs
-        injection h with h
-        subst h
-        simp only [CanonList]
-        refine ⟨conv_canon t v (some p) r hwf.1 (fun q hq => by injection hq with hq; rw [← hq]; exact hz.1) hr, ?_⟩
-        exact convTuple_canon ts vs (some ps) rs' hwf.2 (fun l hl => by injection hl with hl; rw [← hl]; exact hz.2) hrs
-  | t :: ts, v :: vs, none, rs, hwf, hps, h => by
+  | t :: ts, v :: vs, some (p :: ps), rs, hwf, h => by
     simp only [convTuple] at h
     simp only [WFList] at hwf
     split at h
@@ -235,8 +217,22 @@ theorem convTuple_canon : ∀ (ts : List (DType F)) (vs : List (PVal F)) (ps : O
         injection h with h
         subst h
         simp only [CanonList]
-        refine ⟨conv_canon t v none r hwf.1 (fun q hq => by cases hq) hr, ?_⟩
-        exact convTuple_canon ts vs none rs' hwf.2 (fun l hl => by cases hl) hrs
+        refine ⟨conv_canon t v (some p) r hwf.1 hr, ?_⟩
+        exact convTuple_canon ts vs (some ps) rs' hwf.2 hrs
+  | t :: ts, v :: vs, none, rs, hwf, h => by
+    simp only [convTuple] at h
+    simp only [WFList] at hwf
+    split at h
+    · cases h
+    · rename_i r hr
+      split at h
+      · cases h
+      · rename_i rs' hrs
+        injection h with h
+        subst h
+        simp only [CanonList]
+        refine ⟨conv_canon t v none r hwf.1 hr, ?_⟩
+        exact convTuple_canon ts vs none rs' hwf.2 hrs
 theorem convMember_canon : ∀ (ms : List (String × DType F)) (k : String) (v r : PVal F),
     WFFields ms → convMember .validate ms k v = some (.ok r) → Canon r
   | [], k, v, r, _, h => by simp [convMember] at h
@@ -245,7 +241,7 @@ theorem convMember_canon : ∀ (ms : List (String × DType F)) (k : String) (v r
     simp only [WFFields] at hwf
     split at h
     · injection h with h
-      exact conv_canon t v none r hwf.1 (fun q hq => by cases hq) h
+      exact conv_canon t v none r hwf.1 h
     · exact convMember_canon rest k v r hwf.2 h
 end
 
